@@ -265,6 +265,10 @@ class Fn:
                 return (f"(Q.neg {par(e)})", "Q")
             raise NotTranslatable(f"unary {type(node.op).__name__} on {t}")
         if isinstance(node, ast.BinOp):
+            if isinstance(node.op, ast.BitAnd) and isinstance(node.right, ast.UnaryOp) and isinstance(node.right.op, ast.Invert):
+                r = self.clear_bits(self.expr(node.left, env), self.expr(node.right.operand, env))
+                if r is not None:
+                    return r
             return self.binop(node.op, self.expr(node.left, env), self.expr(node.right, env), node)
         if isinstance(node, ast.Compare):
             parts = []
@@ -475,6 +479,8 @@ class Fn:
     def unify(self, a, ta, b, tb):
         if ta == tb:
             return a, b, ta
+        if is_nat_ty(ta) and is_nat_ty(tb):
+            return a, b, ("Nat" if "Nat" in (ta, tb) else "Flags" if "Flags" in (ta, tb) else "Nat")
         if is_int_ty(ta) and is_int_ty(tb):
             return as_int(a, ta), as_int(b, tb), "Int"
         if ta == "Opt:_" and tb.startswith("Opt:"):
@@ -494,6 +500,13 @@ class Fn:
         if tb == "Q" and is_int_ty(ta):
             return f"(Q.ofInt {as_int(a, ta)})", b, "Q"
         raise NotTranslatable(f"cannot unify {ta} and {tb}")
+
+    def clear_bits(self, l, m):
+        """`a & ~m` on naturals: the bits of `m` cleared in `a`"""
+        (a, ta), (b, tb) = l, m
+        if is_nat_ty(ta) and is_nat_ty(tb):
+            return (f"({a} ^^^ ({a} &&& {b}))", "Flags" if "Flags" in (ta, tb) and ta != "Nat" else "Nat")
+        return None
 
     def binop(self, op, l, r, node=None):
         (a, ta), (b, tb) = l, r
@@ -569,6 +582,9 @@ class Fn:
             eb = f"(Option.elim {par(b)} false (fun y => {inner}))" if tb.startswith("Opt:") else f"(let y := {b}; {inner})"
             c = ea.replace("INNER", eb)
             return c if isinstance(op, ast.In) else f"(!{c})"
+        if isinstance(op, (ast.In, ast.NotIn)) and ta == "QSet" and tb == "QSet":
+            c = f"(QSet.subsetOf {par(a)} {par(b)})"
+            return c if isinstance(op, ast.In) else f"(!{c})"
         if isinstance(op, (ast.In, ast.NotIn)):
             # IntFlag containment: `mask in value`  =  value & mask == mask
             if {ta, tb} <= {"Flags", "Lit"} and "Flags" in (ta, tb):
@@ -605,6 +621,9 @@ class Fn:
     def call(self, node, env):
         fname = dotted(node.func)
         if fname is None:
+            key = ast.unparse(node.func)
+            if key in self.t.get("calls", {}):
+                return self.t["calls"][key](self, node.args, {k.arg: k.value for k in node.keywords}, env)
             raise NotTranslatable("computed callee")
         args = node.args
         kw = {k.arg: k.value for k in node.keywords}
@@ -676,6 +695,19 @@ class Fn:
                 dflt, td = self.expr(args[1], env)
                 body, dflt, t = self.unify(body, tb, dflt, td)
                 return (f"(firstHit {it} (fun {v} => {c}) (fun {v} => {body}) {par(dflt)})", t)
+        if fname in ("random.randrange", "random.randint", "random.choice") and "random_sites" in self.t:
+            # the value a `random` call returns is one field of the model's `Choices`; which one is decided by the position of the
+            # call in the source (the ranges the code draws from are tied by the run explanation, C05/C14, not here)
+            sites = getattr(self, "_sites", None)
+            if sites is None:
+                calls = [n for n in ast.walk(self.fdef) if isinstance(n, ast.Call) and dotted(n.func) in ("random.randrange", "random.randint", "random.choice")]
+                calls.sort(key=lambda n: (n.lineno, n.col_offset))
+                sites = self._sites = {(n.lineno, n.col_offset): i for i, n in enumerate(calls)}
+            idx = sites.get((node.lineno, node.col_offset))
+            table = self.t["random_sites"]
+            if idx is None or len(sites) != len(table):
+                raise NotTranslatable(f"{len(sites)} random draws where the binding table knows {len(table)}")
+            return table[idx]
         if fname in self.t.get("calls", {}):
             return self.t["calls"][fname](self, args, kw, env)
         if fname.endswith(".unpack") and len(args) == 1 and not kw:
@@ -911,7 +943,10 @@ class Fn:
             if isinstance(s, ast.AugAssign):
                 if name not in env:
                     raise NotTranslatable(f"augmented assignment to unbound {name}")
-                e, t = self.binop(s.op, env[name], (e, t), None)
+                cb = None
+                if isinstance(s.op, ast.BitAnd) and isinstance(val, ast.UnaryOp) and isinstance(val.op, ast.Invert):
+                    cb = self.clear_bits(env[name], self.expr(val.operand, env))
+                e, t = cb if cb is not None else self.binop(s.op, env[name], (e, t), None)
             if isinstance(s, ast.AnnAssign) and t == "Opt:_":
                 t = self.t.get("opt_types", {}).get(name, t)
             if isinstance(s, ast.AnnAssign) and t == "List:_":
